@@ -40,14 +40,14 @@ def run_C10(ctx, rep):
 def run_C11(ctx, rep):
     byods_rules.check_L5(ctx, rep, 'trrel_ternary_ind')
     byods_rules.check_L12(ctx, rep)
-    byods_rules.check_L14(ctx, rep)
+    byods_rules.check_L14(ctx, rep, 'trrel_binary_ind')
     gen_driver.run_gen(ctx, rep, ['G5', 'G1G3', 'G3r', 'UI'], only_tags=['trrel'], floors={'G5.merge': 20})
     gen_driver.run_tv(ctx, rep, only_tags=['trrel'], floors={'R1': 15})
 
 
 def run_C12(ctx, rep):
     byods_rules.check_L5(ctx, rep, 'adaptor::bin_rel_to_ternary')
-    byods_rules.check_L14(ctx, rep)
+    byods_rules.check_L14(ctx, rep, 'trrel_union_find_binary_ind')
     byods_rules.check_L16(ctx, rep, ['trrel_union_find'])
     byods_rules.check_L17(ctx, rep)
     gen_driver.run_gen(ctx, rep, ['G5', 'G1G3', 'G3r', 'UI'], only_tags=['trrel_uf'], floors={'G5.merge': 20})
